@@ -107,7 +107,12 @@ func init() {
 						d = 2
 					}
 					histories(r, alpha, d, func(ops []memOp) {
-						memDoRW(r, memCase{Mem: "bytes", Blocks: lay, Ops: append([]memOp{}, ops...), Top: top, MaxA: 11, MaxW: 3})
+						c := memCase{Mem: "bytes", Blocks: lay, Ops: append([]memOp{}, ops...), Top: top, MaxA: 11, MaxW: 3}
+						if len(ops) <= 2 {
+							memDoRW(r, c) // all read/write interleavings
+						} else {
+							memDo(r, c)
+						}
 					})
 				}
 			}
@@ -155,11 +160,11 @@ func init() {
 				b := b
 				memDo(r, memCase{Mem: "overlay", Base: b.kind, Blocks: b.blocks, Pre: b.pre, MaxA: 7, MaxW: 4})
 				a2 := alpha2
-				if r.Quick() && bi%6 != 3 && bi < 64 {
-					a2 = alpha // quick: the wide alphabet on every 6th layout and the sparse bases only
+				if r.Quick() && bi%9 != 3 && bi < 64 {
+					a2 = alpha // quick: the wide alphabet on every 9th layout and the sparse bases only
 				}
 				do := memDo
-				if !r.Quick() || bi%6 == 3 || bi >= 64 {
+				if !r.Quick() || bi%9 == 3 || bi >= 64 {
 					do = memDoRW // all read/write interleavings
 				}
 				histories(r, a2, 2, func(ops []memOp) {
